@@ -56,7 +56,7 @@ Proof. vm_compute. reflexivity. Qed.
    writers, and the reader's window is the model's *)
 From Coq Require Import ZArith List.
 Import ListNotations.
-From GM Require Import SrcFrame SrcStreamwriter SrcFrameTie.
+From GM Require Import SrcFrame SrcStreamwriter SrcFrameSignTie.
 Theorem C07_source_signature_constants :
   (v_frame_signatureReferenceDate_args = [2015; 1; 1; 0; 0; 0; 0] /\
    v_streamwriter_signatureReferenceDate_args = [2015; 1; 1; 0; 0; 0; 0] /\
